@@ -32,9 +32,10 @@ Section RunProofs.
 
   Lemma run_stmt_for : forall m v lo hi b,
     run_stmt call m (SFor v lo hi b) =
+    let r := iter_for (Z.to_nat (hi - lo + 1)) v lo (fun m => run_list call m b) m in
     match lookup v (mvars m) with
-    | None => err m E_undeclared
-    | Some _ => iter_for (Z.to_nat (hi - lo + 1)) v lo (fun m => run_list call m b) m
+    | None => (fst r, EErr E_undeclared :: snd r)
+    | Some _ => r
     end.
   Proof. reflexivity. Qed.
 End RunProofs.
